@@ -19,7 +19,7 @@
    the behaviour). *)
 From Coq Require Import Lia.
 From Coq Require Import Permutation.
-From Torf Require Import Base Pipeline PipelineProofs FlowProofs ThreadProofs DeadlockProofs ConservationProofs PipeExplore PipeExploreProofs NormProofs PipeConfigs.
+From Torf Require Import Base Pipeline PipelineProofs FlowProofs ThreadProofs DeadlockProofs ConservationProofs ReaderDoneProofs DrainProofs VerifyTrueProofs VerifyFalseProofs CompleteProofs PipeExplore PipeExploreProofs NormProofs PipeConfigs.
 Open Scope Z_scope.
 
 (* soundness of the exploration: what the checker accepts holds for every reachable state *)
@@ -74,12 +74,48 @@ Theorem C03_no_piece_lost_unbounded : forall c s,
 Proof. exact no_piece_lost. Qed.
 Print Assumptions C03_no_piece_lost_unbounded.
 
+(* UNBOUNDED: a call that returns a verdict (True or False, no exception) has drained the pipeline: the reader has
+   ended, and every piece it handed over has been collected -- nothing is left in the piece queue, with a hasher
+   or in the hash queue.  Invariants (proofs/DrainProofs.v): once a hasher has met the end-of-stream token the
+   piece queue holds no piece; the janitor passes its wait only after the finalize event; the hash queue is
+   pieces, then -- once the janitor has ended -- the end marker and nothing after it; what a hasher holds is a
+   piece; main's normal shutdown starts only when it has taken that end marker. *)
+Theorem C03_verdict_means_drained : forall c s r,
+  (1 <= cf_hashers c)%nat -> reach c s -> s_result s = Some r -> verdict r ->
+  s_rst s = TDone /\ indices s = s_seen s /\ Permutation (s_seen s) (map Z.of_nat (seq 0 (Z.to_nat (s_ridx s)))).
+Proof. exact verdict_means_drained. Qed.
+Print Assumptions C03_verdict_means_drained.
+
+(* UNBOUNDED: a reader that ended without an error in a run that was never told to stop has handed over every item *)
+Theorem C03_reader_done_means_everything_read : forall c s,
+  reach c s -> s_rst s = TDone -> s_rexc s = None -> s_stop s = false -> s_ridx s = nitems c.
+Proof. exact reader_done_means_everything_read. Qed.
+Print Assumptions C03_reader_done_means_everything_read.
+
+(* UNBOUNDED, "the same outcome as the sequential reference": a hashing run over readable content (every item a
+   piece, as many as the torrent has) that returns a verdict without having been told to stop returns True --
+   under every schedule, with any number of hashers, any out-of-memory handling, any clock.  (With
+   C01_generate_unbounded: the stored hashes are then exactly the reference hashes, in order.) *)
+Theorem C03_generate_unstopped_returns_true : forall c s r hs,
+  (1 <= cf_hashers c)%nat -> reach c s -> cf_verify c = None ->
+  yielded (cf_items c) = map RPiece hs -> cf_total c = zlen hs ->
+  s_result s = Some r -> verdict r -> s_stop s = false -> r = ResTrue.
+Proof. exact generate_unstopped_returns_true. Qed.
+Print Assumptions C03_generate_unstopped_returns_true.
+
 (* non-vacuity: six pieces, two hashers: states in the middle of a run, pieces spread over the queues *)
 Example C03_no_piece_lost_example :
   let cfg := mk (map RPiece [11; 12; 13; 14; 15; 16]) 6 2 CbQuiet [] None in
   map (fun f => let s := auto_run f cfg (init cfg) in (s_ridx s, indices s, s_mdone s)) [20; 40; 200]%nat =
   [(3, [2; 0; 1], false); (6, [5; 4; 3; 0; 1; 2], false); (6, [0; 1; 2; 3; 4; 5], true)].
 Proof. vm_compute. reflexivity. Qed.
+
+(* non-vacuity of the completeness theorems: the same run ends with True, the stop flag never set, the reader at 6 *)
+Example C03_unstopped_example :
+  let cfg := mk (map RPiece [11; 12; 13; 14; 15; 16]) 6 2 CbQuiet [] None in
+  let s := auto_run 200 cfg (init cfg) in
+  reach cfg s /\ s_result s = Some ResTrue /\ s_stop s = false /\ s_rst s = TDone /\ s_ridx s = 6 /\ yielded (cf_items cfg) = map RPiece [11; 12; 13; 14; 15; 16].
+Proof. split; [apply auto_run_reach; constructor|vm_compute; repeat split; reflexivity]. Qed.
 
 (* reading goodb *)
 Theorem C03_no_deadlock : forall c ref mf rs s,
